@@ -42,7 +42,7 @@ Definition assignable (p v : bval) : bool :=
       | VAny => true
       | VKnown o => sub_art (class_of o) c
       | VTyped c' => sub_art c' c
-      | VSub _ => sub_art CType c
+      | VSub c' => sub_art (meta c') c
       | VTuple _ => sub_art CTuple c
       end
   | VSub c =>
@@ -50,7 +50,7 @@ Definition assignable (p v : bval) : bool :=
       | VAny => true
       | VKnown (OClass c') => sub_art c' c
       | VKnown _ => false
-      | VTyped c' => cls_eqb c' CType
+      | VTyped c' => cls_eqb c' CType || (sub c' CType && isinst (OClass c) c')   (* plain type, or a metaclass of c *)
       | VSub c' => sub_art c' c
       | VTuple _ => false
       end
